@@ -21,13 +21,21 @@
 /* Containers entered by one top-level print: a value that shares sub-containers (or contains
  * itself) would otherwise be expanded (branching factor)^depth times */
 #define VAL_PRINT_MAX_CONTAINERS 100000
+/* Values (containers and leaves) visited by one top-level print */
+#define VAL_PRINT_MAX_ITEMS 4000000
 
 typedef struct {
     const void *path[VAL_PRINT_MAX_DEPTH + 2];  /* containers being printed, outermost first */
     long containers_left;
+    long items_left;
 } ValPrintCtx;
 
 static void val_print_depth(NanoValue v, FILE *out, int depth, ValPrintCtx *pc) {
+    if (pc->items_left <= 0) return;            /* budget spent: unwind without visiting anything else */
+    if (--pc->items_left == 0) {
+        fprintf(out, "...");
+        return;
+    }
     if (depth > VAL_PRINT_MAX_DEPTH) {
         fprintf(out, "...");
         return;
@@ -77,7 +85,7 @@ static void val_print_depth(NanoValue v, FILE *out, int depth, ValPrintCtx *pc) 
         case TAG_ARRAY:
             if (v.as.array) {
                 fprintf(out, "[");
-                for (uint32_t i = 0; i < v.as.array->length; i++) {
+                for (uint32_t i = 0; i < v.as.array->length && pc->items_left > 0; i++) {
                     if (i > 0) fprintf(out, ", ");
                     val_print_depth(v.as.array->elements[i], out, depth + 1, pc);
                 }
@@ -89,7 +97,7 @@ static void val_print_depth(NanoValue v, FILE *out, int depth, ValPrintCtx *pc) 
         case TAG_STRUCT:
             if (v.as.sval) {
                 fprintf(out, "{");
-                for (uint32_t i = 0; i < v.as.sval->field_count; i++) {
+                for (uint32_t i = 0; i < v.as.sval->field_count && pc->items_left > 0; i++) {
                     if (i > 0) fprintf(out, ", ");
                     if (v.as.sval->field_names && v.as.sval->field_names[i]) {
                         fprintf(out, "%s: ", vmstring_cstr(v.as.sval->field_names[i]));
@@ -104,7 +112,7 @@ static void val_print_depth(NanoValue v, FILE *out, int depth, ValPrintCtx *pc) 
         case TAG_UNION:
             if (v.as.uval) {
                 fprintf(out, "variant(%u", v.as.uval->variant);
-                for (uint32_t i = 0; i < v.as.uval->field_count; i++) {
+                for (uint32_t i = 0; i < v.as.uval->field_count && pc->items_left > 0; i++) {
                     fprintf(out, ", ");
                     val_print_depth(v.as.uval->fields[i], out, depth + 1, pc);
                 }
@@ -116,7 +124,7 @@ static void val_print_depth(NanoValue v, FILE *out, int depth, ValPrintCtx *pc) 
         case TAG_TUPLE:
             if (v.as.tuple) {
                 fprintf(out, "(");
-                for (uint32_t i = 0; i < v.as.tuple->count; i++) {
+                for (uint32_t i = 0; i < v.as.tuple->count && pc->items_left > 0; i++) {
                     if (i > 0) fprintf(out, ", ");
                     val_print_depth(v.as.tuple->elements[i], out, depth + 1, pc);
                 }
@@ -143,6 +151,7 @@ static void val_print_depth(NanoValue v, FILE *out, int depth, ValPrintCtx *pc) 
 void val_print(NanoValue v, FILE *out) {
     ValPrintCtx pc;
     pc.containers_left = VAL_PRINT_MAX_CONTAINERS;
+    pc.items_left = VAL_PRINT_MAX_ITEMS;
     val_print_depth(v, out, 0, &pc);
 }
 
